@@ -617,7 +617,7 @@ def e2e_env():
     dbapi.ENV.reset(log=log)
     G = dict(P=P, select=orm.select, db_session=orm.db_session, __name__='c04_sites',
              # module-level values.  y, z, o, d are *shadowed* by the closure / local scopes of every call site
-             x=None, y=1000, z=2000, o=Obj(4000), d={'k': 8000},
+             x=None, y=13, z=17, o=Obj(60), d={'k': 80},
              f=lambda v=0, k=0: v * 2 + k + 1, f2=lambda u, v: u * 10 + v, f3=lambda fn: fn() + 1, g=len, g2=sum,
              h=lambda u: (lambda v: u * 100 + v), k=abs, t=(10, 20, 30, 40, 50, 60), d2={0: 7, 1: 8, 2: 9, 3: 10, 5: 11},
              s='abcdef')
@@ -626,7 +626,7 @@ def e2e_env():
 
 SITE_TMPL = '''
 def mk(_yc, _zc):
-    y = _yc; z = _zc + 3000; d = {{'k': 7}}; o = Obj(5000)
+    y = _yc; z = _zc + 20; d = {{'k': 7}}; o = Obj(50)
     def s_py(_zl):
         z = _zl; o = Obj(40); y; d
         return ({E})
@@ -670,7 +670,7 @@ def same_value(a, b):
 _memo2 = {}
 PY_TMPL = '''
 def mk(_yc, _zc):
-    y = _yc; z = _zc + 3000; d = {{'k': 7}}; o = Obj(5000)
+    y = _yc; z = _zc + 20; d = {{'k': 7}}; o = Obj(50)
     def s_py(_zl):
         z = _zl; o = Obj(40); y; d
         return ({E})
@@ -781,9 +781,9 @@ def check_e2e(skel, fronts=FRONTS):
             elif args is None or len(args) != 1:
                 results[f] = ('WRONG:binding', '%s front end: `%s`%s with %s: expected one parameter %r, statement got %r' % (f, esrc, note, what, exp[1], args))
             elif not same_value(args[0], exp[1]):
-                results[f] = ('WRONG:value', '%s front end: `p.%s == (%s)`%s with x=%r (global) y=%r (closure; global y=1000) z=%r (local; '
-                              'closure z=%r, global z=2000): Python computes %r, Pony bound %r'
-                              % (f, attr, esrc, note, xv, yv, zv, zv + 3000, exp[1], args[0]))
+                results[f] = ('WRONG:value', '%s front end: `p.%s == (%s)`%s with x=%r (global) y=%r (closure; global y=13) z=%r (local; '
+                              'closure z=%r, global z=17): Python computes %r, Pony bound %r'
+                              % (f, attr, esrc, note, xv, yv, zv, zv + 20, exp[1], args[0]))
             else:
                 results[f] = ('ok', esrc)
     out = [(f, ) + (results[f] or ('skipped:python-raises-for-every-assignment', esrc)) for f in fronts]
@@ -925,6 +925,18 @@ def cache_histories(ctx):
         with db_session: exp = sorted(o.id for o in P.select()[:] if getattr(o, attr) == v)
         got = answered(site, 'H3')
         if got is not None and got != exp: record('H3 parameter type changes', dict(history='H3', v=v), '%r with v=%r: ids %r, expected %r' % (text, v, got, exp))
+    # H3b: same filter text / same lambda code, parameter type or tuple length changes between calls
+    for v in (1, 1.5, 2, 2.5, (1, 2), (1, 2, 3), (4,), 3.5):
+        for name, th in (('where-string', lambda: select(p for p in P).where('p.fl == v' if not isinstance(v, tuple) else 'p.n in v')),
+                         ('filter-lambda', (lambda: select(p for p in P).filter(lambda p: p.fl == v)) if not isinstance(v, tuple)
+                                           else (lambda: select(p for p in P).filter(lambda p: p.n in v)))):
+            n += 1
+            with db_session: allrows = [(o.id, o.n, o.fl) for o in P.select()[:]]
+            exp = sorted(i for i, nn, ff in allrows if (nn in v if isinstance(v, tuple) else ff == v))
+            got = answered(th, 'H3b ' + name)
+            if got is not None and got != exp:
+                record('H3b parameter type changes under one filter text|' + name, dict(history='H3b', v=v, front=name),
+                       '%s with v=%r after other types: ids %r, Python gives %r' % (name, v, got, exp))
     # H4: a name that is a translatable builtin at one site and a user function at the other
     for order, text in (('builtin-first', 'p for p in P if p.n == len(w)'), ('user-first', 'p for p in P if p.n ==  len(w)')):
         def with_builtin(w): return select(text)
@@ -1030,7 +1042,7 @@ def run(ctx):
     for f in FRONTS:
         ctx.guard('oracle 2 compared on front end ' + f, c.get('e2e:%s:ok' % f, 0) + c.get('e2e:%s:wrong' % f, 0), 200)
     ctx.guard('cache history steps', c.get('cache:history_steps', 0), 40)
-    ctx.guard('cache history steps Pony answered', c.get('cache:history_steps', 0) - c.get('cache:refused_steps', 0), 80)
+    ctx.guard('cache history steps Pony answered', c.get('cache:history_steps', 0) - c.get('cache:refused_steps', 0), 50)
     ctx.assume('ast.parse / ast.unparse / compile of CPython %d.%d define what regenerated text means' % sys.version_info[:2])
     ctx.assume('norm() folds only what CPython folds itself: signed number literals, a+bj, constant tuples, adjacent f-string literals, bare FormattedValue == one-field f-string')
     ctx.assume('SQLite in-memory database; the bound value is read from the sqlite3 driver call (vf.seams.dbapi), after Pony\'s own py2sql conversion')
